@@ -16,8 +16,9 @@ package redisemu
 //@ ghost removedKey bool
 // some keyspace lookup of this command found nothing (set by getStoreKey, sticky)
 //@ ghost lookupAbsent bool
-// the keyspace table of the command's store
-//@ ghost ks *redisDict
+// keyspace tables (dataStore.data) and the store they belong to
+//@ ghostfield redisDict.keyspace bool
+//@ ghostfield redisDict.owner *dataStore
 //@ onwrite dataStore.dataObjectNumber set bumped
 
 // store state may only be touched while the store lock is held
@@ -29,7 +30,7 @@ package redisemu
 //@ pred skWF(sk *storeKey) = (flagHasOne(sk.flags, FLAG_KEY_TYPE_STRING) ==> istype(sk.payload, []byte) && unbox(sk.payload, []byte) != nil) && (flagHasOne(sk.flags, FLAG_KEY_TYPE_LIST) ==> istype(sk.payload, *storeList) && unbox(sk.payload, *storeList) != nil) && (flagHasOne(sk.flags, FLAG_KEY_TYPE_HASH_TABLE) ==> istype(sk.payload, *redisDict) && unbox(sk.payload, *redisDict) != nil) && (flagHasOne(sk.flags, FLAG_KEY_TYPE_SET) ==> istype(sk.payload, *redisDict) && unbox(sk.payload, *redisDict) != nil)
 //@ typeinv storeKey skWF
 
-//@ pred dscOK(dsc *dataStoreCommand) = dsc != nil && dsc.ds != nil && dsc.ds.data != nil && dsc.ds.waitingClients != nil && !dsc.ds.data.scratch
+//@ pred dscOK(dsc *dataStoreCommand) = dsc != nil && dsc.ds != nil && dsc.ds.data != nil && dsc.ds.waitingClients != nil && !dsc.ds.data.scratch && dsc.ds.data.keyspace && dsc.ds.data.owner == dsc.ds
 
 //@ func flagHasOne
 //@ inline
@@ -50,7 +51,7 @@ package redisemu
 // exclusively (EXEC); a command's own id is written only by itself, and no two
 // live commands share an id (newDataStoreCommand) — so from one command's point
 // of view "multiLock == my id" changes only through its own calls.
-//@ stable dataStore.multiLock dataStoreCommand.id
+//@ stable dataStore.multiLock dataStoreCommand.id redisDict.keyspace redisDict.owner redisDict.scratch
 // a command is either nested in its own exclusive section (lock held, multiLock
 // names it) or a normal command that does not hold the lock
 //@ pred lockMode(dsc *dataStoreCommand) = dsc.id != 0 && (held == (dsc.ds.multiLock == dsc.id))
@@ -101,7 +102,7 @@ package redisemu
 //@ func newRedisDict
 //@ trusted allocation of an empty table
 //@ modifies alloc
-//@ ensures result != nil && result.count == 0 && result.scratch && !result.dirty
+//@ ensures result != nil && result.count == 0 && result.scratch && !result.dirty && !result.keyspace
 
 //@ func redisDict.get
 //@ trusted
@@ -113,6 +114,8 @@ package redisemu
 //@ trusted
 //@ requires rd != nil
 //@ requires [C08,C16] locked: held
+// an object installed in a keyspace is a key object carrying the newest version of its store (C10, C06)
+//@ requires [C10,C06] newest: rd.keyspace ==> (istype(val, *storeKey) && unbox(val, *storeKey) != nil && unbox(val, *storeKey).id == rd.owner.dataObjectNumber)
 //@ modifies redisDict.buckets redisDict.count redisDict.removals redisDictItem alloc
 //@ ensures rd.count >= 1
 //@ effect rd.dirty = true
@@ -126,7 +129,7 @@ package redisemu
 //@ ensures rd.count >= 0
 //@ effect if exists : rd.dirty = true
 //@ effect if exists && !rd.scratch : mutated = true
-//@ effect if exists && rd == ks : removedKey = true
+//@ effect if exists && rd.keyspace : removedKey = true
 
 //@ func redisDict.createIterator
 //@ trusted
@@ -146,7 +149,7 @@ package redisemu
 //@ requires rd != nil
 //@ requires [C08,C16] locked: held
 //@ modifies alloc
-//@ ensures result != nil && result.scratch && result.count == rd.count
+//@ ensures result != nil && result.scratch && result.count == rd.count && !result.keyspace
 
 //@ func redisDict.pickRandomItems
 //@ trusted
@@ -233,20 +236,53 @@ package redisemu
 //@ func storeKey.getHashTable
 //@ include accessor
 //@ ensures (result != nil) == flagHasOne(sk.flags, FLAG_KEY_TYPE_HASH_TABLE)
-//@ ensures free stored: result != nil ==> !result.scratch
+//@ ensures free stored: result != nil ==> !result.scratch && !result.keyspace
 
 //@ func storeKey.getSet
 //@ include accessor
 //@ ensures (result != nil) == flagHasOne(sk.flags, FLAG_KEY_TYPE_SET)
-//@ ensures free stored: result != nil ==> !result.scratch
+//@ ensures free stored: result != nil ==> !result.scratch && !result.keyspace
+
+//@ pred dsOK(ds *dataStore) = ds != nil && ds.data != nil && !ds.data.scratch && ds.data.keyspace && ds.data.owner == ds
+
+//@ func storeKey.clone
+//@ prop C08 C06
+//@ guards on
+//@ safetyprop C13
+//@ requires sk != nil && skWF(sk)
+//@ requires [C08,C16] locked: held
+//@ modifies alloc storeKey storeList listItem redisDict.buckets redisDict.count redisDict.removals redisDict.dirty redisDictItem redisDictIter ghost.mutated
+//@ ensures result != nil && result.id == newId && result.flags == sk.flags && result.expiresAt == sk.expiresAt
+//@ ensures [C06] wf: skWF(result)
+//@ loopinv held
+
+//@ func dataStore.copyStoreKeyUnlocked
+//@ prop C08 C16 C10
+//@ guards on
+//@ safetyprop C13
+//@ requires dsOK(ds) && dsOK(dds)
+//@ requires [C08,C16] locked: held
+//@ modifies heap ghost.mutated ghost.bumped ghost.removedKey ghost.lookupAbsent
+//@ ensures [C10] ver.mut: (mutated && !old(mutated)) ==> bumped || removedKey
+//@ ensures [C19] dirty.mut: (mutated && !old(mutated)) ==> dds.data.dirty
+
+//@ func dataStore.moveStoreKeyUnlocked
+//@ prop C08 C16 C10
+//@ guards on
+//@ safetyprop C13
+//@ requires dsOK(ds) && dsOK(dds)
+//@ requires [C08,C16] locked: held
+//@ modifies heap ghost.mutated ghost.bumped ghost.removedKey ghost.lookupAbsent
+//@ ensures [C10] ver.mut: (mutated && !old(mutated)) ==> bumped
+//@ ensures [C19] dirty.mut: (mutated && !old(mutated)) ==> dds.data.dirty
 
 //@ func dataStore.newStoreKeyUnlocked
 //@ prop C08 C06
 //@ guards on
 //@ safetyprop C13
-//@ requires ds != nil && ds.data != nil && !ds.data.scratch
+//@ requires ds != nil && ds.data != nil && !ds.data.scratch && ds.data.keyspace && ds.data.owner == ds
 //@ requires [C08,C16] locked: held
 //@ modifies dataStore.dataObjectNumber storeKey redisDict redisDictItem alloc ghost.mutated ghost.bumped
-//@ ensures result != nil && result.flags == 0 && result.payload == nil
+//@ ensures result != nil && result.flags == 0 && result.payload == nil && result.id == ds.dataObjectNumber
 //@ ensures mut: mutated && bumped
 //@ ensures dirty: ds.data.dirty
